@@ -584,6 +584,14 @@ func init() {
 		}
 		return &RV{T: t, V: &MapV{KT: mt.Key(), VT: mt.Elem(), Addr: ex.alloc(48)}}
 	})
+	setIntrinsic("reflect.MakeMapWithSize", func(ex *Exec, fn *ssa.Function, a []Value) Value {
+		t := ex.rtArg(a[0], "MakeMapWithSize")
+		mt, ok := under(t).(*types.Map)
+		if !ok {
+			ex.gopanic("reflect.MakeMapWithSize of non-map type")
+		}
+		return &RV{T: t, V: &MapV{KT: mt.Key(), VT: mt.Elem(), Addr: ex.alloc(48)}}
+	})
 	setIntrinsic("reflect.Append", func(ex *Exec, fn *ssa.Function, a []Value) Value {
 		s := R(a)
 		if kindOf(s.T) != kSlice {
